@@ -446,6 +446,40 @@ func (s Emitter) formatLiteral(output io.Writer, literal *cypher.Literal) error 
 	return nil
 }
 
+// bindsLooserThan reports whether expression, written without parentheses as an operand of an operator of the given
+// precedence, would be re-grouped by the parser (or < xor < and < not).
+func bindsLooserThan(expression cypher.Expression, precedence int) bool {
+	switch expression.(type) {
+	case *cypher.Disjunction:
+		return precedence > 0
+	case *cypher.ExclusiveDisjunction:
+		return precedence > 1
+	case *cypher.Conjunction:
+		return precedence > 2
+	case *cypher.Negation:
+		return precedence > 3
+	}
+
+	return false
+}
+
+func (s Emitter) writeOperand(output io.Writer, expression cypher.Expression, precedence int) error {
+	if !bindsLooserThan(expression, precedence) {
+		return s.WriteExpression(output, expression)
+	}
+
+	if _, err := io.WriteString(output, "("); err != nil {
+		return err
+	}
+
+	if err := s.WriteExpression(output, expression); err != nil {
+		return err
+	}
+
+	_, err := io.WriteString(output, ")")
+	return err
+}
+
 func (s Emitter) WriteExpression(output io.Writer, expression cypher.Expression) error {
 	switch typedExpression := expression.(type) {
 	case *cypher.ProjectionItem:
@@ -468,16 +502,8 @@ func (s Emitter) WriteExpression(output io.Writer, expression cypher.Expression)
 			return err
 		}
 
-		switch innerExpression := typedExpression.Expression.(type) {
-		case *cypher.Parenthetical:
-			if err := s.WriteExpression(output, innerExpression); err != nil {
-				return err
-			}
-
-		default:
-			if err := s.WriteExpression(output, innerExpression); err != nil {
-				return err
-			}
+		if err := s.writeOperand(output, typedExpression.Expression, 4); err != nil {
+			return err
 		}
 
 	case *cypher.IDInCollection:
@@ -555,7 +581,7 @@ func (s Emitter) WriteExpression(output io.Writer, expression cypher.Expression)
 				}
 			}
 
-			if err := s.WriteExpression(output, joinedExpression); err != nil {
+			if err := s.writeOperand(output, joinedExpression, 1); err != nil {
 				return err
 			}
 		}
@@ -568,7 +594,7 @@ func (s Emitter) WriteExpression(output io.Writer, expression cypher.Expression)
 				}
 			}
 
-			if err := s.WriteExpression(output, joinedExpression); err != nil {
+			if err := s.writeOperand(output, joinedExpression, 2); err != nil {
 				return err
 			}
 		}
